@@ -299,11 +299,20 @@ func runC05E2E(t *testing.T, rng *rand.Rand, rec *sim.Rec, tier string, caseNo i
 		var toClient, toPeer [][]byte
 		for i := 0; i < n; i++ {
 			l := pick(rng, []int{0, 1, 3, 4, 5, 40, 41, 300, 1199, 1200, 1400})
-			a, b := make([]byte, l), make([]byte, l)
+			// toward the client also the largest datagrams the relay passes on (1600 bytes: 1604 as
+			// ChannelData, 1636 as a Data indication - more than the payload itself)
+			la := l
+			if rng.Intn(4) == 0 {
+				la = pick(rng, []int{1560, 1565, 1596, 1597, 1599, 1600})
+			}
+			a, b := make([]byte, la), make([]byte, l)
 			rng.Read(a)
 			rng.Read(b)
 			if l >= 4 {
 				a[0], a[1], b[0], b[1] = byte(i>>8), byte(i), byte(i>>8), byte(i)
+			}
+			if la != l {
+				a[0], a[1] = byte(i>>8), byte(i)
 			}
 			toClient, toPeer = append(toClient, a), append(toPeer, b)
 		}
